@@ -20,7 +20,14 @@ WORKLOADS = {
     "twopaths": [{"p": "w", "q": "w"}, {"r": "w", "a": "x"}],
     "three": [{"a": "x", "b": "y"}, {"a": "x", "c": "z"}, {"c": "z", "d": "y"}],
     "swapped": [{"a": "x", "b": "y"}, {"a": "y", "b": "x"}],   # same names, same contents, crossed
+    # two files above the large-file threshold per writer: they are hashed by the pool
+    "big": [{"L1": "big1", "L2": "big2", "a": "x"}, {"L1": "big2", "L2": "big1", "c": "x"}],
 }
+
+
+BIGC = {"big1": b"1" * (2**20 + 1), "big2": b"2" * (2**20 + 1)}
+CONTENTS = dict(CONTENTS, **BIGC)
+MD5 = dict(MD5, **{k: ref.md5(v) for k, v in BIGC.items()})
 
 
 def listing(tree):
@@ -99,6 +106,14 @@ def one_schedule(cfg, choices):
 
     trees = WORKLOADS[cfg["workload"]]
     install_read_seam()
+    import dvc_data.hashfile.build as _B
+
+    from . import C03 as _C03
+
+    if cfg.get("pool"):
+        # the hashing pool hands its results back in a chosen completion order
+        _B.ThreadPoolExecutor = _C03.PermExec
+        _C03._PERM.update(order=[1, 0] if cfg["pool"] == "reversed" else [0, 1], used=0, sizes=[])
     from .. import sched as _sched
 
     if cfg.get("sql"):
@@ -347,6 +362,10 @@ def configs(tier):
             yield {"workload": name, "mode": mode, "first": None, "caps": False, "upload": True}, \
                 (2 if tier == "thorough" and mode == "threads" else 1)
     yield {"workload": "swapped", "mode": "threads", "first": None, "caps": False}, 1
+    # hashing pool: large files, results in natural and in reversed completion order
+    for pool in ("natural", "reversed"):
+        for mode in ("threads", "procs"):
+            yield {"workload": "big", "mode": mode, "first": None, "caps": False, "pool": pool}, 1
     # SQL pass: statements on the shared state database (outside transactions) are scheduling points too
     for mode in ("threads", "procs"):
         for name in ("identical", "overlap"):
